@@ -126,6 +126,7 @@ CHECKS = {
 }
 
 ENGINES = [
+    dict(name="Aldy", path="spec/Aldy.tla", serves_properties=["C10", "C19"], kind_free_text="TLA+ composition of Guards and Pipeline by joint actions; mc/MC_Aldy (+ anti-vacuity configs), run by C10 thorough"),
     dict(name="DumpReplay", path="spec/DumpReplay.tla", serves_properties=["C17"], kind_free_text="TLA+ dump snapshot/restore; mc/MC_DumpReplay, trace/DumpTrace"),
     dict(name="Pileup", path="spec/Pileup.tla", serves_properties=["C06"], kind_free_text="TLA+ pileup (operational + declarative); PileupDefs, mc/MC_Pileup, gen/PileupGen, trace/PileupTrace"),
     dict(name="Depth", path="spec/Depth.tla", serves_properties=["C07"], kind_free_text="TLA+ depth normalisation; mc/MC_Depth, trace/DepthTrace"),
